@@ -5,6 +5,7 @@ import (
 	"go/ast"
 	"go/token"
 	"go/types"
+	"strconv"
 
 	"rscheck/core"
 	"rscheck/lin"
@@ -52,28 +53,77 @@ func loopBody(l ast.Stmt) *ast.BlockStmt {
 func LoopCount(info *types.Info, l ast.Stmt) ast.Expr {
 	switch x := l.(type) {
 	case *ast.ForStmt:
+		if x.Cond != nil && x.Init == nil && x.Post == nil {
+			// while form: `i := a` before, `for i < n { ...; i++ }` with the increment as the last statement, the
+			// only assignment of i anywhere, and no continue that could skip it
+			b := pat.Expr("_i < _n").Match(info, x.Cond, nil)
+			if b == nil || len(x.Body.List) == 0 {
+				return nil
+			}
+			i, isID := b["_i"].(*ast.Ident)
+			inc, isInc := x.Body.List[len(x.Body.List)-1].(*ast.IncDecStmt)
+			if !isID || !isInc || inc.Tok != token.INC || Obj(info, inc.X) != core.ObjOf(info, i) || nAssign[core.ObjOf(info, i)] != 1 {
+				return nil
+			}
+			skips := false
+			ast.Inspect(x.Body, func(m ast.Node) bool {
+				if br, isBr := m.(*ast.BranchStmt); isBr && (br.Tok == token.CONTINUE || br.Tok == token.GOTO) {
+					skips = true
+				}
+				return !skips
+			})
+			a, isC := int64(0), false
+			if iv := initVal[core.ObjOf(info, i)]; iv != nil {
+				a, isC = core.IntConst(info, iv)
+			}
+			if skips || !isC {
+				return nil
+			}
+			n := b["_n"].(ast.Expr)
+			if a == 0 {
+				return n
+			}
+			return &ast.BinaryExpr{X: n, Op: token.SUB, Y: &ast.BasicLit{Kind: token.INT, Value: strconv.FormatInt(a, 10)}}
+		}
 		if x.Cond == nil || x.Init == nil || x.Post == nil {
 			return nil
 		}
 		if pd, isDec := x.Post.(*ast.IncDecStmt); isDec && pd.Tok == token.DEC {
-			cd := pat.Expr("_i > _k").Match(info, x.Cond, nil) // countdown
-			if cd == nil {                                     // for left := n; left > k; left--  (n - k rounds)
-				return nil
+			cd := pat.Expr("_i > _k").Match(info, x.Cond, nil) // countdown: for left := n; left > k; left--  (n - k rounds)
+			inclusive := false
+			if cd == nil { // for i := n - 1; i >= k; i--  (n - 1 - k + 1 rounds)
+				if cd = pat.Expr("_i >= _k").Match(info, x.Cond, nil); cd == nil {
+					return nil
+				}
+				inclusive = true
 			}
 			i, isID := cd["_i"].(*ast.Ident)
 			init, ok := x.Init.(*ast.AssignStmt)
 			dec, ok2 := x.Post.(*ast.IncDecStmt)
 			if isID && ok && ok2 && len(init.Lhs) == 1 && len(init.Rhs) == 1 && Obj(info, init.Lhs[0]) == Obj(info, i) && dec.Tok == token.DEC && Obj(info, dec.X) == Obj(info, i) {
+				var n ast.Expr = &ast.BinaryExpr{X: init.Rhs[0], Op: token.SUB, Y: cd["_k"].(ast.Expr)}
 				if k, isC := core.IntConst(info, cd["_k"].(ast.Expr)); isC && k == 0 {
-					return init.Rhs[0]
+					n = init.Rhs[0]
 				}
-				return &ast.BinaryExpr{X: init.Rhs[0], Op: token.SUB, Y: cd["_k"].(ast.Expr)}
+				if inclusive {
+					if be, isB := ast.Unparen(n).(*ast.BinaryExpr); isB && be.Op == token.SUB { // (m - 1) + 1
+						if one, isC := core.IntConst(info, be.Y); isC && one == 1 {
+							return be.X
+						}
+					}
+					n = &ast.BinaryExpr{X: n, Op: token.ADD, Y: &ast.BasicLit{Kind: token.INT, Value: "1"}}
+				}
+				return n
 			}
 			return nil
 		}
+		incl := false
 		b := pat.Expr("_i < _n").Match(info, x.Cond, nil)
 		if b == nil {
-			return nil
+			if b = pat.Expr("_i <= _n").Match(info, x.Cond, nil); b == nil {
+				return nil
+			}
+			incl = true
 		}
 		i, ok := b["_i"].(*ast.Ident)
 		if !ok {
@@ -84,10 +134,22 @@ func LoopCount(info *types.Info, l ast.Stmt) ast.Expr {
 		if !ok || !ok2 || len(init.Lhs) != 1 || len(init.Rhs) != 1 || Obj(info, init.Lhs[0]) != Obj(info, i) || inc.Tok != token.INC || Obj(info, inc.X) != Obj(info, i) {
 			return nil
 		}
-		if v, isC := core.IntConst(info, init.Rhs[0]); !isC || v != 0 {
+		// for i := a; i < n (or <= n); i++  runs n - a (+1) times
+		a, isC := core.IntConst(info, init.Rhs[0])
+		if !isC {
 			return nil
 		}
-		return b["_n"].(ast.Expr)
+		if incl {
+			a--
+		}
+		n := b["_n"].(ast.Expr)
+		switch {
+		case a == 0:
+			return n
+		case a > 0:
+			return &ast.BinaryExpr{X: n, Op: token.SUB, Y: &ast.BasicLit{Kind: token.INT, Value: strconv.FormatInt(a, 10)}}
+		}
+		return &ast.BinaryExpr{X: n, Op: token.ADD, Y: &ast.BasicLit{Kind: token.INT, Value: strconv.FormatInt(-a, 10)}}
 	case *ast.RangeStmt:
 		t := info.TypeOf(x.X)
 		if t == nil {
@@ -109,9 +171,49 @@ func LoopCount(info *types.Info, l ast.Stmt) ast.Expr {
 	return nil
 }
 
+// ZeroBased: the counting loop is `for i := 0; i < n; i++` (its counter is a valid index of a slice of length n).
+func ZeroBased(info *types.Info, l *ast.ForStmt) bool {
+	init, ok := l.Init.(*ast.AssignStmt)
+	if !ok || len(init.Rhs) != 1 || l.Cond == nil {
+		return false
+	}
+	a, isC := core.IntConst(info, init.Rhs[0])
+	return isC && a == 0 && pat.Expr("_i < _n").Match(info, l.Cond, nil) != nil
+}
+
 // SameCount: two count expressions are equal (through conversions, single-assignment locals, `len(s)` of a
 // slice made with that length).
+// splitOffset separates a constant offset written as a literal (`n - 1`, the form LoopCount synthesises) from
+// the rest of the count.
+func splitOffset(e ast.Expr) (ast.Expr, int64) {
+	off := int64(0)
+	for {
+		be, ok := ast.Unparen(e).(*ast.BinaryExpr)
+		if !ok || be.Op != token.ADD && be.Op != token.SUB {
+			return e, off
+		}
+		lit, ok := be.Y.(*ast.BasicLit)
+		if !ok || lit.Kind != token.INT {
+			return e, off
+		}
+		k, err := strconv.ParseInt(lit.Value, 0, 64)
+		if err != nil {
+			return e, off
+		}
+		if be.Op == token.SUB {
+			k = -k
+		}
+		off += k
+		e = be.X
+	}
+}
+
 func SameCount(info *types.Info, a, b ast.Expr) bool {
+	a, offA := splitOffset(a)
+	b, offB := splitOffset(b)
+	if offA != offB {
+		return false
+	}
 	norm := func(e ast.Expr) ast.Expr {
 		e = Through(info, e)
 		if call, ok := e.(*ast.CallExpr); ok && len(call.Args) == 1 {
@@ -130,8 +232,10 @@ func SameCount(info *types.Info, a, b ast.Expr) bool {
 
 // DiffCount: the two counts are the same linear expression up to a non-zero constant (`n` vs `n - 1`): they differ.
 func DiffCount(info *types.Info, a, b ast.Expr) bool {
+	a, offA := splitOffset(a)
+	b, offB := splitOffset(b)
 	fa, fb := lin.Of(info, Through(info, a)), lin.Of(info, Through(info, b))
-	if fa.Const == fb.Const || len(fa.Coef) != len(fb.Coef) {
+	if fa.Const+offA == fb.Const+offB || len(fa.Coef) != len(fb.Coef) {
 		return false
 	}
 	for k, v := range fa.Coef {
